@@ -361,8 +361,11 @@ class HistogramND(HistogramBase):
             if self.keep_missed:
                 self._missed += weight
         else:
+            # The square first: it is what may not fit the content type (then nothing has changed yet)
+            self._errors2[ixbin] += (
+                weight.item() ** 2 if isinstance(weight, np.generic) else weight**2
+            )
             self._frequencies[ixbin] += weight
-            self._errors2[ixbin] += float(weight) ** 2 if isinstance(weight, np.generic) else weight**2
         return ixbin
 
     def fill_n(
